@@ -2,7 +2,7 @@
 """usage: seed_keep.py <dir-name> <wt-ID> <property> <needs> <caught_by> <ran>"""
 import sys, os, shutil, json
 name, wt, prop, needs, caught, ran = sys.argv[1:7]
-src = f'/tmp/wt-{wt}/mutation'
+src = (wt if wt.startswith('/') else f'/tmp/wt-{wt}') + '/mutation'
 dst = f'/verif/seeded/{name}'
 os.makedirs(dst, exist_ok=True)
 shutil.copy(f'{src}/patch.diff', f'{dst}/patch.diff')
